@@ -4,6 +4,7 @@
     of a later session replayed on the rows the database returned for it. *)
 From Acra Require Import Lib.Bytes Lib.Outcome Crypto.Interface Crypto.Stub Gen.Consts Model.Envelope.
 From Acra Require Export Model.Proxy.
+From Acra Require Import Model.ProxyMysql.
 
 Definition mk_ks := Build_keyset.
 Definition idb (id : bytes) : byte := nth 0 id x00.
@@ -13,7 +14,11 @@ Inductive expected := XOk (vals : list bytes) | XErr | XPanic.
 Inductive op :=
 | Sess (cfg : config) (dbschema : list (bytes * list bytes)) (kr : keyring) (conn : bytes)
        (sts : list (stmt * list (list bytes)))
-| Read (cfg : config) (kr : keyring) (conn : bytes) (sel : stmt) (rows : list (list (option bytes))).
+| Read (cfg : config) (kr : keyring) (conn : bytes) (sel : stmt) (rows : list (list (option bytes)))
+(* MySQL literal coding (domain c04my): the SQLVal (k, v) acra's tokenizer produced, the bytes the update function
+   returns for it, and what utf8.Valid / strconv.Atoi answer for those bytes; observed: the literal text after
+   encryptor/mysql.UpdateExpressionValue + sqlparser.String, and what a MySQL server reads from that text *)
+| MyLit (k : N) (v new : bytes) (utf8ok atoiok : bool).
 
 Definition obs_cell (c : option bytes) : bytes :=
   match c with None => [x00] | Some b => x01 :: b end.
@@ -41,6 +46,14 @@ Definition run (o : op) : expected :=
   | Read cfg kr conn sel rows =>
       match proxy_result Stub kr conn rows with
       | Ok out => XOk (map obs_cell (concat out))
+      | Err _ => XErr
+      | Panic => XPanic
+      end
+  | MyLit k v new u a =>
+      match update_value (fun _ => u) (fun _ => a) (fun _ => Ok new) k v with
+      | Ok (k', v') =>
+          let text := format_lit k' v' in
+          XOk [text; obs_cell (match my_read_literal text with Ok d => Some d | _ => None end)]
       | Err _ => XErr
       | Panic => XPanic
       end
